@@ -81,8 +81,9 @@ fn valid_impl(sub: &dyn Fn(&str, &str) -> bool, field: &S, implemented: &S) -> b
 
 fn b(x: bool) -> &'static str { if x { "true" } else { "false" } }
 
-/// kinds: 0 = object, 1 = interface, 2 = union; `edges[i][j]`: i declares implementing / contains j
-fn schema_for(kinds: [u8; 3], edges: [[bool; 3]; 3]) -> Option<Schema> {
+/// kinds: 0 = object, 1 = interface, 2 = union, 3 = scalar; `edges[i][j]`: i declares implementing / contains j.
+/// `via_ext`: the declarations (`implements`, union members) are made by type extensions instead of the definitions.
+fn schema_text(kinds: [u8; 3], edges: [[bool; 3]; 3], via_ext: bool) -> Option<String> {
     let mut s = String::from("type Query { q: Int }\n");
     for i in 0..3 {
         let n = NAMES[i];
@@ -91,17 +92,57 @@ fn schema_for(kinds: [u8; 3], edges: [[bool; 3]; 3]) -> Option<Schema> {
                 let impls: Vec<&str> = (0..3).filter(|&j| edges[i][j] && kinds[j] == 1 && j != i).map(|j| NAMES[j]).collect();
                 let kw = if kinds[i] == 0 { "type" } else { "interface" };
                 s.push_str(&format!("{kw} {n}"));
-                if !impls.is_empty() { s.push_str(&format!(" implements {}", impls.join(" & "))); }
+                if !impls.is_empty() && !via_ext { s.push_str(&format!(" implements {}", impls.join(" & "))); }
                 s.push_str(" { x: Int }\n");
+                if !impls.is_empty() && via_ext { s.push_str(&format!("extend {kw} {n} implements {}\n", impls.join(" & "))); }
             }
-            _ => {
+            2 => {
                 let mem: Vec<&str> = (0..3).filter(|&j| edges[i][j] && kinds[j] == 0).map(|j| NAMES[j]).collect();
                 if mem.is_empty() { return None; }
-                s.push_str(&format!("union {n} = {}\n", mem.join(" | ")));
+                if via_ext {
+                    // first member by the definition, the others by one extension each
+                    s.push_str(&format!("union {n} = {}\n", mem[0]));
+                    for m in &mem[1..] { s.push_str(&format!("extend union {n} = {m}\n")); }
+                } else {
+                    s.push_str(&format!("union {n} = {}\n", mem.join(" | ")));
+                }
             }
+            _ => s.push_str(&format!("scalar {n}\n")),
         }
     }
-    Schema::parse(s, "s.graphql").ok()
+    Some(s)
+}
+fn schema_for(kinds: [u8; 3], edges: [[bool; 3]; 3], via_ext: bool) -> Option<Schema> {
+    Schema::parse(schema_text(kinds, edges, via_ext)?, "s.graphql").ok()
+}
+
+/// The subtype relation *as declared in the schema text* (spec IsValidImplementationFieldType 4.b/4.c: an object
+/// that is a member of the union; an object or interface that declares it implements the interface) — computed
+/// from the enumeration's own `kinds`/`edges`, never through `Schema::is_subtype`.
+fn declared_sub(kinds: [u8; 3], edges: [[bool; 3]; 3], abstract_: usize, maybe: usize) -> bool {
+    abstract_ != maybe && match kinds[abstract_] {
+        1 => matches!(kinds[maybe], 0 | 1) && edges[maybe][abstract_],
+        2 => kinds[maybe] == 0 && edges[abstract_][maybe],
+        _ => false,
+    }
+}
+
+fn default_values() -> Vec<(u8, &'static str, ast::Value)> {
+    // (class for the model: 1 = null, 2 = a value that is not null), label, value
+    vec![
+        (1, "null", ast::Value::Null),
+        (2, "1", ast::Value::Int(1.into())),
+        (2, "0", ast::Value::Int(0.into())),
+        (2, "false", ast::Value::Boolean(false)),
+        (2, "\"\"", ast::Value::String(String::new())),
+        (2, "\"null\"", ast::Value::String("null".into())),
+        (2, "0.0", ast::Value::Float(0.0.into())),
+        (2, "E", ast::Value::Enum(name!("NULL"))),
+        (2, "[]", ast::Value::List(vec![])),
+        (2, "[null]", ast::Value::List(vec![Node::new(ast::Value::Null)])),
+        (2, "{}", ast::Value::Object(vec![])),
+        (2, "{a: null}", ast::Value::Object(vec![(name!("a"), Node::new(ast::Value::Null))])),
+    ]
 }
 
 pub fn run(ctx: &mut Ctx) {
@@ -121,6 +162,38 @@ pub fn run(ctx: &mut Ctx) {
                     &format!("is_assignable_to={got}, AreTypesCompatible={want}"));
             }
         }
+    }
+    // the same name at nesting depths beyond the exhaustive bound (a recursion that stops early, a depth counter):
+    // towers of list / non-null-list wrappers around A and around A!, paired with the towers that differ in ONE layer
+    {
+        let mut n = 0u64;
+        let tower = |bits: u64, h: usize, leaf_nn: bool, leaf: &str| -> Type {
+            let nm = Name::new(leaf).unwrap();
+            let mut t = if leaf_nn { Type::NonNullNamed(nm) } else { Type::Named(nm) };
+            for k in 0..h { t = if bits & (1 << k) != 0 { Type::NonNullList(Box::new(t)) } else { Type::List(Box::new(t)) }; }
+            t
+        };
+        for h in [5usize, 8, 17, 40] {
+            let patterns: Vec<u64> = if h <= 8 && ctx.thorough { (0..(1u64 << h)).collect() } else { vec![0, u64::MAX, 0x5555_5555_5555_5555, 0xAAAA_AAAA_AAAA_AAAA, 1, 1 << (h as u64 - 1)] };
+            for &p in &patterns {
+                for leaf_nn in [false, true] {
+                    let a = tower(p, h, leaf_nn, "A");
+                    let mut others = vec![a.clone(), tower(p, h, !leaf_nn, "A"), tower(p, h, leaf_nn, "B"), tower(p, h - 1, leaf_nn, "A"), tower(p, h + 1, leaf_nn, "A")];
+                    for k in 0..h { others.push(tower(p ^ (1 << k), h, leaf_nn, "A")); }
+                    for t in &others {
+                        for (x, y) in [(&a, t), (t, &a)] {
+                            let got = x.is_assignable_to(y);
+                            ctx.case("assignable", &[enc_ty(x), enc_ty(y)], b(got));
+                            n += 1;
+                            if got != compat(&embed(x), &embed(y)) {
+                                ctx.fail("assignable-vs-AreTypesCompatible", &format!("{x} -> {y}"), &format!("is_assignable_to={got}"));
+                            }
+                        }
+                    }
+                }
+            }
+        }
+        ctx.stat_n("family:assignable_deep_towers", n);
     }
 
     // --- stream T2: is_variable_usage_allowed via hook, exhaustive pairs × defaults
@@ -160,31 +233,84 @@ pub fn run(ctx: &mut Ctx) {
             }
         }
     }
+    // every KIND of default value (the rule only asks "exists and is not the value null": `0`, `false`, `""`, `[]`,
+    // `[null]`, `{}` … all count as non-null defaults) × every kind of LOCATION default (any default, `null`
+    // included, makes hasLocationDefaultValue true), on the types where the default decides (depth ≤ 1, one name)
+    {
+        let ts = all_types(1, &NAMES[..1]);
+        let dvs = default_values();
+        let mut n = 0u64;
+        for v in &ts { for l in &ts {
+            for (class, label, dv) in &dvs {
+                for (ldl, ldv) in [("absent", None), ("null", Some(ast::Value::Null)), ("[]", Some(ast::Value::List(vec![]))), ("0", Some(ast::Value::Int(0.into())))] {
+                    let var_def = ast::VariableDefinition { name: name!("v"), ty: Node::new(v.clone()), default_value: Some(Node::new(dv.clone())), directives: Default::default() };
+                    let ld = ldv.is_some();
+                    let usage = ast::InputValueDefinition { description: None, name: name!("arg"), ty: Node::new(l.clone()), default_value: ldv.map(Node::new), directives: Default::default() };
+                    let got = apollo_compiler::verif_hooks::is_variable_usage_allowed(&var_def, &usage);
+                    let d = ["absent", "null", "value"][*class as usize];
+                    ctx.case("usage", &[enc_ty(v), d.to_string(), enc_ty(l), b(ld).to_string()], b(got));
+                    n += 1;
+                    let want = usage_allowed(&embed(v), *class, &embed(l), ld);
+                    if got != want {
+                        let key = if *class == 1 { "usage-null-default" } else { "usage-vs-IsVariableUsageAllowed" };
+                        ctx.fail(key, &format!("$v: {v} = {label} at location {l} with location default {ldl}"), &format!("is_variable_usage_allowed={got}, spec={want}"));
+                    }
+                }
+            }
+        } }
+        ctx.stat_n("family:usage_default_kinds", n);
+    }
 
-    // --- the same rule through public validation of a minimal document (no hook)
+    // --- the same rule through public validation of a minimal document (no hook):
+    // both call sites of the rule (a field argument, a directive argument), two named types (Int, Float: the literal
+    // `1` is a valid default for both, so the only possible complaint is the usage rule), nesting depth ≤ 2 in thorough
     let list_wrap = |t: &Type| t.to_string();
-    let mini_types = all_types(1, &["Int"]);
+    let mini_types = all_types(if ctx.thorough { 2 } else { 1 }, &["Int", "Float"]);
+    fn lit(t: &Type, leaf: &str) -> String { match t { Type::Named(_) | Type::NonNullNamed(_) => leaf.to_string(), Type::List(i) | Type::NonNullList(i) => format!("[{}]", lit(i, leaf)) } }
     for v in &mini_types {
         for l in &mini_types {
+            if !ctx.thorough && v.inner_named_type() != l.inner_named_type() && (v.is_list() || l.is_list()) && v.is_list() != l.is_list() { continue; }
             for dflt in 0..3u8 {
                 for ld in [false, true] {
-                    let schema_src = format!(
-                        "type Query {{ f(a: {}{}): Int }}",
-                        list_wrap(l),
-                        if ld { if l.is_list() { " = [1]" } else { " = 1" } } else { "" }
-                    );
-                    let d = match dflt { 0 => "".to_string(), 1 => " = null".to_string(), _ => if v.is_list() { " = [1]".into() } else { " = 1".into() } };
-                    let doc = format!("query($v: {}{}) {{ f(a: $v) }}", list_wrap(v), d);
-                    let Ok(schema) = Schema::parse_and_validate(&schema_src, "s.graphql") else { ctx.stat("mini_schema_invalid"); continue };
-                    let res = apollo_compiler::ExecutableDocument::parse_and_validate(&schema, &doc, "d.graphql");
-                    // a non-null variable type with `= null` default is rejected for another reason
-                    if dflt == 1 && v.is_non_null() { continue; }
-                    let got = res.is_ok();
-                    let want = usage_allowed(&embed(v), dflt, &embed(l), ld);
-                    ctx.stat("mini_documents");
-                    if got != want {
-                        let key = if dflt == 1 { "usage-null-default" } else { "usage-public-route" };
-                        ctx.fail(key, &format!("{schema_src} || {doc}"), &format!("validates={got}, spec allows={want}"));
+                    for route in 0..4u8 {
+                        let loc = format!("{}{}", list_wrap(l), if ld { format!(" = {}", lit(l, "1")) } else { String::new() });
+                        let schema_src = match route {
+                            0 => format!("type Query {{ f(a: {loc}): Int }}"),
+                            1 => format!("type Query {{ f: Int }} directive @d(a: {loc}) on FIELD"),
+                            // the argument is not the first one / the same name exists on another field and directive
+                            2 => format!("type Query {{ g(a: Float!): Int f(z: Int, a: {loc}): Int }} directive @d(a: Boolean!) on FIELD"),
+                            _ => format!("type Query {{ f(a: Boolean!): Int }} directive @e(a: Float!) on FIELD directive @d(z: Int, a: {loc}) on FIELD | QUERY | FRAGMENT_SPREAD | INLINE_FRAGMENT | FRAGMENT_DEFINITION"),
+                        };
+                        let d = match dflt { 0 => "".to_string(), 1 => " = null".to_string(), _ => format!(" = {}", lit(v, "1")) };
+                        let vd = format!("$v: {}{}", list_wrap(v), d);
+                        let docs: Vec<String> = match route {
+                            0 | 2 => vec![format!("query({vd}) {{ f(a: $v) }}")],
+                            1 => vec![format!("query({vd}) {{ f @d(a: $v) }}")],
+                            _ => vec![
+                                format!("query({vd}) {{ x: f(a: true) @d(a: $v) }}"),
+                                format!("query({vd}) @d(a: $v) {{ f(a: true) }}"),
+                                format!("query({vd}) {{ ... @d(a: $v) {{ f(a: true) }} }}"),
+                                format!("query({vd}) {{ ...F @d(a: $v) }} fragment F on Query {{ f(a: true) }}"),
+                                format!("query({vd}) {{ ...F }} fragment F on Query {{ ... on Query {{ f(a: true) @d(a: $v) }} }}"),
+                                // two operations, only the second declares the default that decides
+                                format!("query P($v: {}) {{ f(a: true) @d(a: $v) }} query R({vd}) {{ f(a: true) @d(a: $v) }}", list_wrap(&v.clone().non_null())),
+                            ],
+                        };
+                        let Ok(schema) = Schema::parse_and_validate(&schema_src, "s.graphql") else { ctx.stat("mini_schema_invalid"); continue };
+                        // a non-null variable type with `= null` default is rejected for another reason
+                        if dflt == 1 && v.is_non_null() { continue; }
+                        for doc in docs {
+                            let res = apollo_compiler::ExecutableDocument::parse_and_validate(&schema, &doc, "d.graphql");
+                            let got = res.is_ok();
+                            let mut want = usage_allowed(&embed(v), dflt, &embed(l), ld);
+                            if doc.starts_with("query P") { want = want && usage_allowed(&embed(&v.clone().non_null()), 0, &embed(l), ld); }
+                            ctx.stat("mini_documents");
+                            ctx.stat(&format!("mini_documents:route{route}"));
+                            if got != want {
+                                let key = if dflt == 1 { "usage-null-default" } else { "usage-public-route" };
+                                ctx.fail(key, &format!("{schema_src} || {doc}"), &format!("validates={got}, spec allows={want}"));
+                            }
+                        }
                     }
                 }
             }
@@ -193,10 +319,13 @@ pub fn run(ctx: &mut Ctx) {
 
     // --- stream T3: is_valid_implementation_field_type via hook over every schema shape on A,B,C
     let small = all_types(if ctx.thorough { 3 } else { 2 }, &NAMES);
+    let foreign = all_types(if ctx.thorough { 1 } else { 0 }, &["A", "Int", "Zz"]);
     let mut n_schemas = 0u64;
     let mut kinds_iter = vec![];
-    for k0 in 0..3u8 { for k1 in 0..3u8 { for k2 in 0..3u8 { kinds_iter.push([k0, k1, k2]); } } }
+    for k0 in 0..4u8 { for k1 in 0..4u8 { for k2 in 0..4u8 { kinds_iter.push([k0, k1, k2]); } } }
     for kinds in kinds_iter {
+        // scalars take part in no declaration; keep one representative position for them (the last names)
+        if kinds.iter().filter(|&&k| k == 3).count() > 1 { continue; }
         for mask in 0..64u32 {
             // six off-diagonal edges
             let mut edges = [[false; 3]; 3];
@@ -205,32 +334,80 @@ pub fn run(ctx: &mut Ctx) {
             // skip masks with edges that `schema_for` ignores (keeps the enumeration canonical)
             let mut canonical = true;
             for i in 0..3 { for j in 0..3 { if edges[i][j] {
-                let ok = match kinds[i] { 0 | 1 => kinds[j] == 1, _ => kinds[j] == 0 };
+                let ok = match kinds[i] { 0 | 1 => kinds[j] == 1, 2 => kinds[j] == 0, _ => false };
                 if !ok { canonical = false; }
             } } }
             if !canonical { continue; }
-            let Some(schema) = schema_for(kinds, edges) else { continue };
-            n_schemas += 1;
-            // the schema's subtype relation, as exposed by the public API
-            let mut rel = String::new();
-            for a in NAMES { for c in NAMES { rel.push(if schema.is_subtype(a, c) { '1' } else { '0' }); } }
-            let sub = |a: &str, c: &str| schema.is_subtype(a, c);
-            // sample pairs for quick, all for thorough on a subset of schemas
-            let stride = if ctx.thorough { 1 } else { 7 };
-            let mut k = (mask as usize) % stride;
-            while k < small.len() * small.len() {
-                let (i, j) = (k / small.len(), k % small.len());
-                k += stride;
-                let (iface_t, impl_t) = (&small[i], &small[j]);
-                let got = apollo_compiler::verif_hooks::is_valid_implementation_field_type(&schema, iface_t, impl_t);
-                ctx.case("implfield", &[rel.clone(), enc_ty(iface_t), enc_ty(impl_t)], b(got));
-                let want = valid_impl(&sub, &embed(impl_t), &embed(iface_t));
-                if got != want {
-                    ctx.fail("implfield-vs-IsValidImplementationFieldType",
-                        &format!("kinds={kinds:?} rel={rel} interface field {iface_t}, implementation {impl_t}"),
-                        &format!("impl={got} spec={want}"));
+            let has_edges = mask != 0;
+            for via_ext in [false, true] {
+                if via_ext && !has_edges { continue; }
+                let Some(schema) = schema_for(kinds, edges, via_ext) else { continue };
+                n_schemas += 1;
+                if via_ext { ctx.stat("schemas_declared_by_extension"); }
+                if kinds.contains(&3) { ctx.stat("schemas_with_scalar"); }
+                // the schema's subtype relation, as exposed by the public API …
+                let mut rel = String::new();
+                for a in NAMES { for c in NAMES { rel.push(if schema.is_subtype(a, c) { '1' } else { '0' }); } }
+                // … which must be exactly what the schema text declares
+                for a in 0..3 { for c in 0..3 {
+                    let (got, want) = (schema.is_subtype(NAMES[a], NAMES[c]), declared_sub(kinds, edges, a, c));
+                    if got != want {
+                        ctx.fail("is-subtype-vs-declared", &format!("{} || is_subtype({}, {})", schema_text(kinds, edges, via_ext).unwrap().replace('\n', " "), NAMES[a], NAMES[c]),
+                            &format!("is_subtype={got}, the schema declares={want}"));
+                    }
+                } }
+                for other in ["Query", "Int", "Zz", "__Type"] { for n in NAMES {
+                    if schema.is_subtype(other, n) || schema.is_subtype(n, other) {
+                        ctx.fail("is-subtype-vs-declared", &format!("{} || is_subtype between {other} and {n}", schema_text(kinds, edges, via_ext).unwrap().replace('\n', " ")), "is_subtype=true, nothing declared");
+                    }
+                } }
+                let sub = |a: &str, c: &str| {
+                    let (Some(i), Some(j)) = (NAMES.iter().position(|n| *n == a), NAMES.iter().position(|n| *n == c)) else { return false };
+                    declared_sub(kinds, edges, i, j)
+                };
+                // sample pairs for quick, all for thorough on a subset of schemas
+                let stride = if via_ext || kinds.contains(&3) { if ctx.thorough { 5 } else { 37 } } else if ctx.thorough { 1 } else { 7 };
+                let mut k = (mask as usize) % stride;
+                let mut pairs: Vec<(&Type, &Type)> = vec![];
+                while k < small.len() * small.len() {
+                    let (i, j) = (k / small.len(), k % small.len());
+                    k += stride;
+                    pairs.push((&small[i], &small[j]));
                 }
-                if got { ctx.nontrivial(&format!("if{rel}{}{}", enc_ty(iface_t), enc_ty(impl_t))); }
+                // names that are not among the schema's abstract/object types: a built-in scalar, an undefined name
+                if n_schemas % 3 == 1 || ctx.thorough {
+                    for i in &foreign { for j in &foreign { pairs.push((i, j)); ctx.stat("family:implfield_foreign_names"); } }
+                }
+                for (iface_t, impl_t) in pairs {
+                    let got = apollo_compiler::verif_hooks::is_valid_implementation_field_type(&schema, iface_t, impl_t);
+                    ctx.case("implfield", &[rel.clone(), enc_ty(iface_t), enc_ty(impl_t)], b(got));
+                    let want = valid_impl(&sub, &embed(impl_t), &embed(iface_t));
+                    if got != want {
+                        ctx.fail("implfield-vs-IsValidImplementationFieldType",
+                            &format!("kinds={kinds:?} rel={rel} interface field {iface_t}, implementation {impl_t}"),
+                            &format!("impl={got} spec={want}"));
+                    }
+                    if got { ctx.nontrivial(&format!("if{rel}{}{}", enc_ty(iface_t), enc_ty(impl_t))); }
+                }
+                // the same predicate through public schema validation: `interface I { f: T1 } type O implements I { f: T2 }`
+                // appended to the (valid) base schema validates exactly when IsValidImplementationFieldType(T2, T1)
+                let base = schema_text(kinds, edges, via_ext).unwrap();
+                if Schema::parse_and_validate(&base, "b.graphql").is_ok() {
+                    ctx.stat("implfield_public_base_valid");
+                    let stride = if ctx.thorough { 11 } else { 61 };
+                    let mut k = (mask as usize * 5 + n_schemas as usize) % stride;
+                    while k < small.len() * small.len() {
+                        let (iface_t, impl_t) = (&small[k / small.len()], &small[k % small.len()]);
+                        k += stride;
+                        let src = format!("{base}interface I {{ f: {iface_t} }}\ntype O implements I {{ f: {impl_t} }}\n");
+                        let got = Schema::parse_and_validate(&src, "p.graphql").is_ok();
+                        let want = valid_impl(&sub, &embed(impl_t), &embed(iface_t));
+                        ctx.stat("family:implfield_public_route");
+                        if got != want {
+                            ctx.fail("implfield-public-route", &src.replace('\n', " "), &format!("schema validates={got}, IsValidImplementationFieldType={want}"));
+                        }
+                    }
+                }
             }
         }
     }
